@@ -131,6 +131,46 @@ def corpus(tier, seed, names):
         if r is not None:
             deeper.append("T " + " ".join(map(str, r)))
     streams.append(("deeper_4_9_operators", deeper))
+    # random operator expressions with nested round and curly brackets, space lists whose items carry prefix and
+    # suffix operators, tight and spaced binary operators: the whole domain of the reference parser
+    pre = [i for i, k in sorted(kinds.items()) if k == "KPrefix"]
+    suf = [i for i, k in sorted(kinds.items()) if k == "KSuffix"]
+    bins = [i for i, k in sorted(kinds.items()) if k == "KBinary"]
+    vals = [num, tts.index("Identifier")]
+    LC, RC = tts.index("StartExpression"), tts.index("EndExpression")
+
+    def operand(d):
+        out = [rng.choice(pre) for _ in range(rng.choice([0, 0, 0, 1, 1, 2]))]
+        k = rng.random()
+        if d > 0 and k < 0.35:
+            l, r = (L, R) if rng.random() < 0.7 else (LC, RC)
+            inner = expr(d - 1)
+            if rng.random() < 0.2:
+                inner = [ws] + inner + [ws]
+            out += [l] + inner + [r]
+        else:
+            out.append(rng.choice(vals))
+        out += [rng.choice(suf) for _ in range(rng.choice([0, 0, 0, 1, 1, 2]))]
+        return out
+
+    def expr(d):
+        out = operand(d)
+        for _ in range(rng.choice([0, 1, 1, 2, 3])):
+            k = rng.random()
+            if k < 0.35:
+                out += [ws]                      # the implicit list
+            elif k < 0.7:
+                out += [rng.choice(bins)]
+            else:
+                out += [ws, rng.choice(bins), ws]
+            out += operand(d)
+        return out
+    nested = []
+    for _ in range(60000 if tier == "thorough" else 12000):
+        e = expr(rng.choice([1, 2, 2, 3]))
+        if len(e) <= 40:
+            nested.append("T " + " ".join(map(str, e)))
+    streams.append(("nested_operator_expressions", nested))
     progs = [gen_programs.program(rng, 4) for _ in range(40000 if tier == "thorough" else 8000)]
     streams.append(("programs", ["S " + gen_programs.hexcp(p) for p in progs]))
     return streams
